@@ -86,6 +86,8 @@ def opIdx : String → Option Nat
 def parseTerm : Sexp → Option (Term V)
   | Sexp.list [Sexp.atom "var", n, s] => do some (.var (← n.asStr?) (← s.asNat?))
   | Sexp.list [Sexp.atom "rvar", n] => do some (.rvar (← n.asStr?))
+  | Sexp.list [Sexp.atom "slice", n, a, b, c, d] => do
+      some (.slice (← n.asStr?) (← a.asNat?) (← b.asNat?) (← c.asNat?) (← d.asNat?))
   | Sexp.list [Sexp.atom "binary", Sexp.atom op, l, r] => do
       some (.binary (← opIdx op) (← parseTerm l) (← parseTerm r))
   | s => (parseTensor s).map .tensor
